@@ -735,7 +735,10 @@ def np_take(interp, name, args, kw, st, node):
     # canonical: take(a, i, axis=k) == a[(:,)*k + (i,)]
     if isinstance(ax, int):
         sl = T("slice", const(None), const(None), const(None))
-        it = idx.term if ax == 0 else T("tuple", *([sl] * ax), idx.term)
+        it_t = idx.term
+        if idx.kind in ("list", "tuple") and idx.items is not None and len(idx.items) == 1 and A.shape_of(idx.items[0]) == ():
+            it_t = T("slice1", idx.items[0].term)  # take(a, [c]): the single element with its axis kept
+        it = it_t if ax == 0 else T("tuple", *([sl] * ax), it_t)
         term = T("getitem", x.term, it)
     else:
         term = T("take", x.term, idx.term, b["axis"].term if b.get("axis") is not None else const(None))
